@@ -6,6 +6,7 @@ import (
 	"encoding/json"
 	"errors"
 	"fmt"
+	"io"
 	stdlog "log"
 	"os"
 	"path/filepath"
@@ -91,6 +92,15 @@ type Case struct {
 	// "base" base name and line, "tag" a prefixed form): set at run time, so the same call site is
 	// rendered by different functions in the course of one process
 	Marshal string `json:"caller_marshal,omitempty"`
+	// PanicBefore: immediately before, another logger's hook panicked and the program recovered (a
+	// misbehaving plug-in): later events are not affected
+	PanicBefore bool `json:"hook_panicked_before,omitempty"`
+}
+
+type panicHook struct{}
+
+func (panicHook) Run(e *zerolog.Event, l zerolog.Level, m string) {
+	panic("hook of another logger gives up")
 }
 
 // renderCaller is what the CallerMarshalFunc of kind renders for a frame given as file:line.
@@ -211,6 +221,13 @@ func run(c *Case, shared *zerolog.Logger, out *rw) string {
 	if want > c.Depth+3 {
 		return "" // the stack of this harness is not deep enough for the skip: not a case
 	}
+	if c.PanicBefore {
+		func() {
+			defer func() { recover() }()
+			other := zerolog.New(io.Discard).Hook(panicHook{})
+			other.Info().Msg("this event's hook panics")
+		}()
+	}
 	out.last = out.last[:0]
 	marked = marked[:0]
 	w(c.Depth, c.Site, l, stdl, j)
@@ -279,7 +296,7 @@ func TestExhaustiveProduct(t *testing.T) {
 							continue
 						}
 						for _, hooks := range []string{"none", "before", "after", "both"} {
-							c := &Case{Site: id, Name: si.Name, Mech: mech, J: j, Depth: d, Hooks: hooks, Marshal: []string{"", "base", "", "tag", ""}[n%5]}
+							c := &Case{Site: id, Name: si.Name, Mech: mech, J: j, Depth: d, Hooks: hooks, Marshal: []string{"", "base", "", "tag", ""}[n%5], PanicBefore: n%11 == 3}
 							n++
 							if nontrivial(c) {
 								nt++
@@ -371,6 +388,7 @@ func TestRapidSequences(t *testing.T) {
 			}
 			c.Depth = rapid.IntRange(0, 4).Draw(rt, "depth")
 			c.Marshal = rapid.SampledFrom([]string{"", "", "base", "tag"}).Draw(rt, "marshal")
+			c.PanicBefore = rapid.IntRange(0, 7).Draw(rt, "panicbefore") == 0
 			seq = append(seq, c)
 			b, _ := json.Marshal(c)
 			rec.Case(b, nontrivial(&c), "sequence-step")
